@@ -356,7 +356,7 @@ impl Check for C13 {
     }
     fn gen(&self, seed: u64, i: u64, tier: Tier) -> Value {
         let r = Rng::new(crate::harness::case_seed(seed, "C13", i));
-        let setups = Setup::all_basic();
+        let setups = Setup::all_extended();
         let setup = setups[(i % setups.len() as u64) as usize].clone();
         let mut gp = GenParams::swarm(&mut r.split("params"));
         gp.n_files = 2 + ((i / setups.len() as u64) % 5) as usize; // 2..6
